@@ -251,7 +251,19 @@ func c11(args []string) int {
 					j := lr.Intn(len(mine))
 					f := mine[j]
 					idx := m*per + j
-					switch lr.Intn(4) {
+					switch lr.Intn(5) {
+					case 4:
+						// the same function bound BY NAME (symbol-table lookup shared by all builders)
+						b.Reset()
+						b.Pkg("main").ExportFunc(fmt.Sprintf("c11T%d", idx)).Apply(func(a int) int { return -2000*idx - 7 })
+						if f(1) != -2000*idx-7 {
+							atomic.AddInt64(&wrongOwn, 1)
+							pmu.Lock()
+							if len(wmsgs) < 4 {
+								wmsgs = append(wmsgs, fmt.Sprintf("mocker %d bound main.c11T%d by name: the call answers %d, want %d", m, idx, f(1), -2000*idx-7))
+							}
+							pmu.Unlock()
+						}
 					case 0:
 						tag := it
 						b.Func(f).Apply(func(a int) int { return -1000*idx - tag })
